@@ -46,6 +46,14 @@ PROPS = {
                      "again by calling the handler method directly) derived from the OpenAPI/proto shape of a route and changed by ONE named mutation, "
                      "against a registry holding 3-8 relationships; evaluation = one request answered and judged (panic, status class, state dump, 2xx body shape); "
                      "non-trivial = the request was dispatched to a keto handler (not answered by httprouter/net/http itself); distinct by (route, mutation class, answer class)"),
+    # C19: mode "" = plain binary; mode "race" = the same monitor (fewer histories) under the race detector (reports become <prop>:data-race:... violations)
+    "C19": dict(test="TestC19", level="exploration", runs=[("", "plain", 16), ("race", "race", 8)], timeout=(900, 5400), floor=(150000, 500),
+                rule="case = one edit history (3-12 steps: valid / syntactically invalid / type-invalid / empty / removed-and-recreated versions, written atomically or in place) of the files of one "
+                     "watched target (OPL file, OPL directory, legacy directory, legacy file) with 2-4 samplers polling the namespace manager, REST GET /namespaces and gRPC ListNamespaces; "
+                     "evaluation = one (sample, watched file) decision of the version-admissibility oracle (plus one per file for the final bounded-progress check); "
+                     "non-trivial = a sample was attributed to a version other than the initial one, i.e. a reload was actually observed; distinct by (history, file, version)",
+                assumptions=["file events are those Linux inotify delivers through fsnotify on the scratch filesystem; other platforms' watcher behaviour is not covered",
+                             "the meaning ns(v) of a file content is computed with keto's own parsers (schema.Parse, config.GetParser); parser defects are C10/C12's business"]),
 }
 
 ASSUMPTIONS_COMMON = [
